@@ -182,7 +182,12 @@ int run_case(Reader& r, bool& nontrivial, std::string& desc) {
             }
             transition_since_alloc = true; verif::cls("period");
         } else if (k < 79) {                                           // ---- stage
-            if (stage < 5 && (stage == 0 || r.flag())) { det->increaseAllocationStage(); stage++; what = "stage++"; }
+            if (stage < 40 && (stage == 0 || r.flag())) {
+                unsigned up = r.below(4) == 0 ? 1 + r.below(20) : 1;              // now and then many levels at once (stages nest up to 255 deep)
+                if (stage + up > 40) up = 1;
+                for (unsigned q = 0; q < up; q++) det->increaseAllocationStage();
+                stage = (unsigned char)(stage + up); what = sfmt("stage+=%u", up); if (stage >= 16) verif::cls("stage>=16");
+            }
             else { det->decreaseAllocationStage(); stage--; what = "stage--"; }
             transition_since_alloc = true; verif::cls("stage");
         } else if (k < 82) {                                           // ---- release everything of the current stage
